@@ -41,7 +41,8 @@ def main(ctx):
     search = pc.run(ctx, THEOREM_MODULES, pj.normalize_ws, direct,
                     "generated translation unit differs from the well-formed one",
                     "generated translation unit is not well-formed",
-                    cfg_kw=dict(typedef_same_ns=True, unique_ns=True, c02_safe=True))
+                    cfg_kw=dict(typedef_same_ns=True, unique_ns=True, c02_safe=True),
+                    extra_streams=[(dict(p_template=0.9, max_members=8, max_decls=3), 0.5)])
     for e in ctx.known:
         still = replay_finding(e)
         if e.get("kind") == "fixed":
